@@ -30,6 +30,41 @@ type CMsg struct {
 	S string
 }
 
+// PMsgPM is PMsg with a ProtoMessage method (the marker of generated
+// protobuf types): it still implements proto.Message, and the library's
+// codecOf gives proto.Message implementers precedence, so it is self-encoding.
+type PMsgPM struct {
+	X uint64
+	S string
+}
+
+func (*PMsgPM) ProtoMessage() {}
+
+// CMsgPM is CMsg with a ProtoMessage method: the library uses the custom
+// interface only for types WITHOUT that marker (codecOf, TypeOf:
+// `implements(t, customMessageType) && !implements(t, protoMessageType)`), so
+// the methods are ignored and the type is encoded like the plain untagged
+// struct {X uint64; S string}, i.e. the same message {uint64 x = 1; string s = 2}.
+// Its methods would write a different payload, so that using them by mistake
+// is visible.
+type CMsgPM struct {
+	X uint64
+	S string
+}
+
+func (*CMsgPM) ProtoMessage() {}
+
+func (m *CMsgPM) Size() int { return 3 }
+
+func (m *CMsgPM) MarshalTo(b []byte) (int, error) {
+	if len(b) < 3 {
+		return 0, io.ErrShortBuffer
+	}
+	return copy(b, []byte{0x1a, 0x01, 0x21}), nil // field 3 = "!": not what the struct codec writes
+}
+
+func (m *CMsgPM) Unmarshal(b []byte) error { return errImpl }
+
 // ImplMessage is the schema of PMsg / CMsg (field order = Go field order).
 func ImplMessage() Message {
 	return Message{Fields: []Field{{Num: 1, K: KUint64}, {Num: 2, K: KString}}}
@@ -115,3 +150,15 @@ func (m *CMsg) MarshalTo(b []byte) (int, error) {
 }
 
 func (m *CMsg) Unmarshal(b []byte) error { return implMerge(b, &m.X, &m.S) }
+
+func (m *PMsgPM) Size() int { return implSize(m.X, m.S) }
+
+func (m *PMsgPM) Marshal(b []byte) error {
+	if len(b) < m.Size() {
+		return io.ErrShortBuffer
+	}
+	implAppend(b[:0], m.X, m.S)
+	return nil
+}
+
+func (m *PMsgPM) Unmarshal(b []byte) error { return implMerge(b, &m.X, &m.S) }
